@@ -22,7 +22,7 @@ func init() {
 			"(P06-errpanic) no panic is control-dependent on the error of strconv.Atoi unless the digit group it parses is bounded by its regular expression; (P06-runewidth) a byte offset formed as index + len(string(rune)) is never used to slice the string being ranged over; " +
 			"(P06-shape) mapParse appends one value, one block and one error list per iteration and the parallel merge appends values and blocks pairwise; (P06-linetext = P10-epoch) the line stored in an error is a line of its block. " +
 			"Not covered: implicit panics in general (index/slice bounds, nil dereference, negative Repeat counts, make) beyond the named patterns; termination; resource exhaustion.",
-		rules: []ruleFn{ruleP06Panics, ruleP06RuneWidth, ruleP06Shape, ruleP10Epoch},
+		rules: []ruleFn{ruleP06Panics, ruleP06RuneWidth, ruleP06Shape, ruleP08LoopExit, ruleP07SliceGuard, ruleP10Epoch},
 		trusted: []string{
 			"type invariants of klog.Date/Time accessors (Year 0..9999, Month 1..12, Day 1..31, Weekday 1..7, Quarter 1..4, Hour 0..23, Minute 0..59), supported by P16-closed",
 			"panics that depend only on clock, flags or configuration are out of the property's scope (file content) and are listed as such",
